@@ -15,7 +15,7 @@ EXPL = ("R08.1 constant propagation of the three skip_* switches through builder
         "R08.7 (= R14.2 on the output buffers and per-set maps) what a rejected or failed entry had already written is "
         "discarded before the next entry uses the buffers, on every path. R08.6 the per-entry dimension sets are adopted only on paths that ran the loop registering their names in the name registry, or on "
         "which every validation switch that consults the registry is known to be off. "
-        "Not decided: completeness of the defect list for arbitrary entries.")
+        "R08.8 once an entry-dimensions configuration is in hand, every path stores the adopted sets or records a validation error (what later `set twice` / `late` checks rely on). Not decided: completeness of the defect list for arbitrary entries.")
 CR = c02.CR
 SW_DEFAULT = ("skip_validate_unique", "skip_validate_dimensions_exist", "skip_validate_names")
 SW = SW_DEFAULT
@@ -369,6 +369,33 @@ def run(ctx):
                       % (fld, sorted(bad_flags or [])),
                       "every path to the store passes the registration loop (heads bb%s) or has %s all skipped" % (sorted(heads), sorted(consult)))
     ctx.floor("R08.6", "stores adopting entry dimension sets", n6, 1)
+    # ------------------------------------------------------------------ R08.8 an accepted dimensions configuration is remembered
+    # the `set twice` / `late` checks look at what earlier configurations left behind: once the body that adopts entry dimensions has the
+    # configuration in hand, every way out of it either records a validation error or stores the adopted sets - a path that does neither
+    # (a `nothing to do for this value` shortcut) lets a second configuration through unnoticed
+    n8 = 0
+    for b in F.all_bodies(CR):
+        if not c02.in_scope(b) or b.kind == "Closure":
+            continue
+        stores = [i for i in b.live_blocks() for st in b.stmts(i) if st["k"] == "assign" and has_deref(st["lhs"]) and place_fields(st["lhs"]) and
+                  "JsonEncodedArray" in (st["lhs"]["p"][-1][4] if len(st["lhs"]["p"][-1]) > 4 else "")]
+        if not stores:
+            continue
+        n8 += 1
+        errs = [c.bb for c in b.calls() if c.name in ("invalid_mut", "extend_mut", "invalid", "error") and "Validation" in (c.def_ or "") + (c.self_ty or "")]
+        # from where the configuration is known to be the dimensions one: the Some side of its downcast, else the entry of the body
+        starts = []
+        for c in b.calls():
+            if c.name == "downcast_ref" and any("EntryDimensions" in str(a_) for a_ in (c.callee.get("args") or [])):
+                for sw, tg, oth in switch_on_call_result(b, c):
+                    starts.append(tg.get(1, oth))
+        starts = starts or [0]
+        ok8 = all(st_ is not None and b.must_pass(stores + errs, start=st_) for st_ in starts)
+        ctx.check(ok8, "R08.8", fnkey(b) + "#accepted-dimensions-configuration-is-remembered", loc(b, stores[0]),
+                  "a path through the handling of an entry-dimensions configuration returns without recording an error and without storing the adopted "
+                  "sets: a later configuration of the same entry is then not recognised as `set twice` (or `late`) and the entry is emitted",
+                  "every path stores the adopted sets or records an error")
+    ctx.floor("R08.8", "bodies adopting entry dimension sets", n8, 1)
     return EXPL
 
 
